@@ -137,7 +137,7 @@ type pairSet struct {
 	a, b []string // a race matches when one innermost library frame is in a and the other in b
 }
 
-// The tables hold function names only (no line numbers); known.d/C18.json gives the reasoning per entry.
+// The tables hold function names only (no line numbers); known_findings.json gives the reasoning per entry.
 var knownPairs = []pairSet{
 	// KF-C18-01: rebalanceIncremental (ticker goroutine) and GetProgress (any caller) read bt.lazyState and
 	// lazyState.UnderflowNodes; the foreground replaces/clears them in these three functions.
